@@ -215,3 +215,117 @@ Proof.
   rewrite <- L at 1. now rewrite !skipn_app_exact.
 Qed.
 End WordLaws.
+
+(* ---- STRINGBase / StringBase with literal patterns *)
+Lemma existsb_eqb_in u pats : existsb (text_eqb u) pats = true <-> In u pats.
+Proof.
+  rewrite existsb_exists. split.
+  - intros [x [I E]]. apply text_eqb_eq in E. now subst.
+  - intros I. exists u. split; [exact I|apply text_eqb_refl].
+Qed.
+
+Theorem strings_roundtrip pats fold p : In p pats -> (fold = true -> upper p = p) ->
+  strings_match pats fold p = Some p.
+Proof.
+  intros I U. unfold strings_match. destruct fold.
+  - rewrite (U eq_refl). rewrite (proj2 (existsb_eqb_in p pats) I). reflexivity.
+  - rewrite (proj2 (existsb_eqb_in p pats) I). reflexivity.
+Qed.
+
+Theorem strings_case pats s s' : upper s = upper s' -> strings_match pats true s = strings_match pats true s'.
+Proof. intros E. unfold strings_match. now rewrite E. Qed.
+
+Theorem strings_sound pats fold s u : strings_match pats fold s = Some u ->
+  In u pats /\ u = (if fold then upper s else s).
+Proof.
+  unfold strings_match. destruct (existsb (text_eqb (if fold then upper s else s)) pats) eqn:E; [|discriminate].
+  intros H. inversion H; subst. split; [apply existsb_eqb_in; exact E|reflexivity].
+Qed.
+
+(* ---- BracketBase *)
+Lemma starts_with_app_self p t : starts_with p (p ++ t) = true.
+Proof. induction p as [|c r IH]; [reflexivity|]. cbn. now rewrite aeqb_refl, IH. Qed.
+Lemma div2_double' n : Nat.div2 (n + n) = n.
+Proof. induction n as [|n IH]; [reflexivity|]. replace (S n + S n) with (S (S (n + n))) by lia. cbn [Nat.div2]. now rewrite IH. Qed.
+Lemma odd_double' n : Nat.odd (n + n) = false.
+Proof. rewrite Nat.odd_add. now destruct (Nat.odd n). Qed.
+Lemma strip_solid t : starts_solid t -> starts_solid (rev t) -> strip t = t.
+Proof.
+  intros A B. unfold strip, rstrip. rewrite (starts_solid_lstrip _ B), rev_involutive. apply starts_solid_lstrip. exact A.
+Qed.
+
+Section BracketLaws.
+Variables (brackets l r : text).
+Hypothesis HALVES : drop_blanks brackets = l ++ r.
+Hypothesis SAME : length r = length l.
+Hypothesis L_SOLID : starts_solid l.
+Hypothesis R_SOLID : starts_solid (rev r).
+
+Lemma halves_eq : bracket_halves brackets = (l, r).
+Proof.
+  unfold bracket_halves. rewrite HALVES, app_length, SAME, div2_double'.
+  rewrite firstn_app_exact. replace (length l + length l - length l) with (length l) by lia.
+  now rewrite skipn_app_exact.
+Qed.
+
+Lemma l_ne : l <> [].
+Proof. apply starts_solid_ne. exact L_SOLID. Qed.
+
+Theorem bracket_roundtrip inner req : starts_solid inner ->
+  bracket_match brackets true req (bracket_tostr brackets (BIn inner)) = BIn inner.
+Proof.
+  intros IS. unfold bracket_tostr. rewrite halves_eq. unfold bracket_match. rewrite halves_eq. cbn [negb andb].
+  assert (NE : l ++ inner ++ r <> []) by (pose proof l_ne; destruct l; [contradiction|discriminate]).
+  rewrite (match_ne (l ++ inner ++ r) _ _ NE).
+  assert (ST : strip (l ++ inner ++ r) = l ++ inner ++ r).
+  { apply strip_solid; [apply starts_solid_app; exact L_SOLID|].
+    rewrite !rev_app_distr, <- app_assoc. apply starts_solid_app. exact R_SOLID. }
+  rewrite ST, HALVES.
+  assert (NB : l ++ r <> []) by (pose proof l_ne; destruct l; [contradiction|discriminate]).
+  rewrite (match_ne (l ++ r) _ _ NB).
+  rewrite app_length, SAME, odd_double', div2_double'.
+  assert (LEN : length (l ++ inner ++ r) = length l + length inner + length l) by (rewrite !app_length, SAME; lia).
+  rewrite LEN.
+  replace (length l + length inner + length l <? length l * 2) with false by (symmetry; apply Nat.ltb_ge; lia).
+  rewrite starts_with_app_self.
+  assert (EW : ends_with r (l ++ inner ++ r) = true).
+  { unfold ends_with. rewrite !rev_app_distr, <- app_assoc. apply starts_with_app_self. }
+  rewrite EW. cbn [andb negb].
+  rewrite skipn_app_exact. replace (length l + length inner + length l - length l - length l) with (length inner) by lia.
+  rewrite firstn_app_exact, (starts_solid_lstrip inner IS).
+  rewrite (match_ne inner _ _ (starts_solid_ne _ IS)). reflexivity.
+Qed.
+
+Theorem bracket_roundtrip_empty has : bracket_match brackets has false (bracket_tostr brackets BEmpty) = BEmpty.
+Proof.
+  unfold bracket_tostr. rewrite halves_eq. unfold bracket_match. rewrite halves_eq. rewrite andb_false_r.
+  assert (NB : l ++ r <> []) by (pose proof l_ne; destruct l; [contradiction|discriminate]).
+  rewrite (match_ne (l ++ r) _ _ NB).
+  assert (ST : strip (l ++ r) = l ++ r).
+  { apply strip_solid; [apply starts_solid_app; exact L_SOLID|]. rewrite rev_app_distr. apply starts_solid_app. exact R_SOLID. }
+  rewrite ST, HALVES, (match_ne (l ++ r) _ _ NB).
+  rewrite app_length, SAME, odd_double', div2_double'.
+  replace (length l + length l <? length l * 2) with false by (symmetry; apply Nat.ltb_ge; lia).
+  rewrite starts_with_app_self.
+  assert (EW : ends_with r (l ++ r) = true) by (unfold ends_with; rewrite rev_app_distr; apply starts_with_app_self).
+  rewrite EW. cbn [andb negb].
+  rewrite skipn_app_exact. replace (length l + length l - length l - length l) with 0 by lia. cbn [firstn lstrip].
+  rewrite andb_false_r. reflexivity.
+Qed.
+
+(* what is accepted is bracketed: the stripped text starts with the left and ends with the right half *)
+Theorem bracket_sound has req s inner : bracket_match brackets has req s = BIn inner ->
+  starts_with l (strip s) = true /\ ends_with r (strip s) = true /\ has = true /\ inner <> [].
+Proof.
+  unfold bracket_match. rewrite halves_eq.
+  destruct (negb has && req); [discriminate|]. destruct s as [|c0 s0]; [discriminate|].
+  destruct (drop_blanks brackets) as [|b0 bs]; [discriminate|].
+  destruct (Nat.odd (length (b0 :: bs))); [discriminate|].
+  destruct (length (strip (c0 :: s0)) <? Nat.div2 (length (b0 :: bs)) * 2); [discriminate|].
+  destruct (starts_with l (strip (c0 :: s0))) eqn:A; [|discriminate].
+  destruct (ends_with r (strip (c0 :: s0))) eqn:B; [|discriminate]. cbn [andb negb].
+  match goal with |- context [lstrip ?x] => destruct (lstrip x) as [|c1 r1] eqn:LL end.
+  - destruct (has && req); discriminate.
+  - destruct has; [|discriminate]. intros H. inversion H; subst. repeat split; discriminate.
+Qed.
+End BracketLaws.
